@@ -15,97 +15,97 @@ import (
 
 // nonterminals of the standard
 const (
-	ntExpression = iota
-	ntAssignment
-	ntConditional
-	ntShortCircuit
-	ntLogicalOR
-	ntCoalesce
-	ntLogicalAND
-	ntBitOR
-	ntBitXOR
-	ntBitAND
-	ntEquality
-	ntRelational
-	ntShift
-	ntAdditive
-	ntMultiplicative
-	ntExponent
-	ntUnary
-	ntUpdate
-	ntLHS
-	ntPrimary
+	c03NtExpression = iota
+	c03NtAssignment
+	c03NtConditional
+	c03NtShortCircuit
+	c03NtLogicalOR
+	c03NtCoalesce
+	c03NtLogicalAND
+	c03NtBitOR
+	c03NtBitXOR
+	c03NtBitAND
+	c03NtEquality
+	c03NtRelational
+	c03NtShift
+	c03NtAdditive
+	c03NtMultiplicative
+	c03NtExponent
+	c03NtUnary
+	c03NtUpdate
+	c03NtLHS
+	c03NtPrimary
 )
 
 const (
-	gxLeaf = iota
-	gxGroup
-	gxPrefix
-	gxPostfix
-	gxBinary
-	gxCond
-	gxDot
-	gxIndex
-	gxCall
-	gxComma
-	gxRaw // a construct outside the operator fragment: fixed tokens + expected String()
+	c03GxLeaf = iota
+	c03GxGroup
+	c03GxPrefix
+	c03GxPostfix
+	c03GxBinary
+	c03GxCond
+	c03GxDot
+	c03GxIndex
+	c03GxCall
+	c03GxComma
+	c03GxRaw // a construct outside the operator fragment: fixed tokens + expected String()
 )
 
-type gx struct {
+type c03Gx struct {
 	kind int
 	op   js.TokenType
-	tok  jtok
-	kids []*gx
-	raw  []jtok
+	tok  c03Jtok
+	kids []*c03Gx
+	raw  []c03Jtok
 	rawS string
 }
 
 // String() of js/ast.go, restated
-func (e *gx) str() string {
+func (e *c03Gx) str() string {
 	switch e.kind {
-	case gxLeaf:
+	case c03GxLeaf:
 		return string(e.tok.data)
-	case gxGroup:
+	case c03GxGroup:
 		return "(" + e.kids[0].str() + ")"
-	case gxPrefix:
-		op := prefixResult(e.op)
+	case c03GxPrefix:
+		op := c03PrefixResult(e.op)
 		if js.IsIdentifierName(op) {
 			return "(" + op.String() + " " + e.kids[0].str() + ")"
 		}
 		return "(" + op.String() + e.kids[0].str() + ")"
-	case gxPostfix:
+	case c03GxPostfix:
 		return "(" + e.kids[0].str() + string(e.op.Bytes()) + ")"
-	case gxBinary:
+	case c03GxBinary:
 		if js.IsIdentifierName(e.op) {
 			return "(" + e.kids[0].str() + " " + e.op.String() + " " + e.kids[1].str() + ")"
 		}
 		return "(" + e.kids[0].str() + e.op.String() + e.kids[1].str() + ")"
-	case gxCond:
+	case c03GxCond:
 		return "(" + e.kids[0].str() + " ? " + e.kids[1].str() + " : " + e.kids[2].str() + ")"
-	case gxDot:
+	case c03GxDot:
 		return "(" + e.kids[0].str() + "." + string(e.tok.data) + ")"
-	case gxIndex:
+	case c03GxIndex:
 		return "(" + e.kids[0].str() + "[" + e.kids[1].str() + "])"
-	case gxCall:
+	case c03GxCall:
 		var as []string
 		for _, a := range e.kids[1:] {
 			as = append(as, a.str())
 		}
 		return "(" + e.kids[0].str() + "(" + strings.Join(as, ", ") + "))"
-	case gxComma:
+	case c03GxComma:
 		var as []string
 		for _, a := range e.kids {
 			as = append(as, a.str())
 		}
 		return "(" + strings.Join(as, ",") + ")"
-	case gxRaw:
+	case c03GxRaw:
 		return e.rawS
 	}
 	return "?"
 }
 
 // the parser names unary + - ++ -- by their own token types
-func prefixResult(op js.TokenType) js.TokenType {
+func c03PrefixResult(op js.TokenType) js.TokenType {
 	switch op {
 	case js.AddToken:
 		return js.PosToken
@@ -119,134 +119,134 @@ func prefixResult(op js.TokenType) js.TokenType {
 	return op
 }
 
-type exprGen struct {
+type c03ExprGen struct {
 	r        *Rng
-	trailing bool // allow a trailing comma in argument lists
-	raws     func(g *exprGen, depth int) *gx // optional: primary expressions outside the operator fragment
+	trailing bool                                  // allow a trailing comma in argument lists
+	raws     func(g *c03ExprGen, depth int) *c03Gx // optional: primary expressions outside the operator fragment
 }
 
-func leaf(t jtok) *gx { return &gx{kind: gxLeaf, tok: t} }
+func c03Leaf(t c03Jtok) *c03Gx { return &c03Gx{kind: c03GxLeaf, tok: t} }
 
-var genIdents = []jtok{tkA, tkB, tkC, tkD, jt(js.IdentifierToken, "x1"), jt(js.IdentifierToken, "$y"), jt(js.IdentifierToken, "_z")}
-var genLits = []jtok{tkInt, tkDec, tkHex, tkStr, tkThis, tkNull, tkTrue, jt(js.FalseToken, "false"), jt(js.IntegerToken, "0"), jt(js.DecimalToken, "1e3"), jt(js.StringToken, "\"q\"")}
+var c03GenIdents = []c03Jtok{c03TkA, c03TkB, c03TkC, c03TkD, c03Jt(js.IdentifierToken, "x1"), c03Jt(js.IdentifierToken, "$y"), c03Jt(js.IdentifierToken, "_z")}
+var c03GenLits = []c03Jtok{c03TkInt, c03TkDec, c03TkHex, c03TkStr, c03TkThis, c03TkNull, c03TkTrue, c03Jt(js.FalseToken, "false"), c03Jt(js.IntegerToken, "0"), c03Jt(js.DecimalToken, "1e3"), c03Jt(js.StringToken, "\"q\"")}
 
 var (
-	mulOps   = []js.TokenType{js.MulToken, js.DivToken, js.ModToken}
-	addOps   = []js.TokenType{js.AddToken, js.SubToken}
-	shiftOps = []js.TokenType{js.LtLtToken, js.GtGtToken, js.GtGtGtToken}
-	relOps   = []js.TokenType{js.LtToken, js.LtEqToken, js.GtToken, js.GtEqToken, js.InstanceofToken, js.InToken}
-	eqOps    = []js.TokenType{js.EqEqToken, js.NotEqToken, js.EqEqEqToken, js.NotEqEqToken}
-	unaryOps = []js.TokenType{js.DeleteToken, js.VoidToken, js.TypeofToken, js.AddToken, js.SubToken, js.BitNotToken, js.NotToken}
+	c03MulOps   = []js.TokenType{js.MulToken, js.DivToken, js.ModToken}
+	c03AddOps   = []js.TokenType{js.AddToken, js.SubToken}
+	c03ShiftOps = []js.TokenType{js.LtLtToken, js.GtGtToken, js.GtGtGtToken}
+	c03RelOps   = []js.TokenType{js.LtToken, js.LtEqToken, js.GtToken, js.GtEqToken, js.InstanceofToken, js.InToken}
+	c03EqOps    = []js.TokenType{js.EqEqToken, js.NotEqToken, js.EqEqEqToken, js.NotEqEqToken}
+	c03UnaryOps = []js.TokenType{js.DeleteToken, js.VoidToken, js.TypeofToken, js.AddToken, js.SubToken, js.BitNotToken, js.NotToken}
 )
 
-func (g *exprGen) pick(ops []js.TokenType) js.TokenType { return ops[g.r.Intn(len(ops))] }
+func (g *c03ExprGen) pick(ops []js.TokenType) js.TokenType { return ops[g.r.Intn(len(ops))] }
 
-func (g *exprGen) bin(op js.TokenType, l, r *gx) *gx {
-	return &gx{kind: gxBinary, op: op, kids: []*gx{l, r}}
+func (g *c03ExprGen) bin(op js.TokenType, l, r *c03Gx) *c03Gx {
+	return &c03Gx{kind: c03GxBinary, op: op, kids: []*c03Gx{l, r}}
 }
 
 // gen returns a tree derivable from nonterminal nt (with the [In] parameter as given).
-func (g *exprGen) gen(nt, depth int, in bool) *gx {
+func (g *c03ExprGen) gen(nt, depth int, in bool) *c03Gx {
 	r := g.r
 	down := depth <= 0 || r.Chance(2, 5)
 	switch nt {
-	case ntExpression:
+	case c03NtExpression:
 		if down || r.Chance(2, 3) {
-			return g.gen(ntAssignment, depth, in)
+			return g.gen(c03NtAssignment, depth, in)
 		}
 		n := 2 + r.Intn(2)
-		e := &gx{kind: gxComma}
+		e := &c03Gx{kind: c03GxComma}
 		for i := 0; i < n; i++ {
-			e.kids = append(e.kids, g.gen(ntAssignment, depth-1, in))
+			e.kids = append(e.kids, g.gen(c03NtAssignment, depth-1, in))
 		}
 		return e
-	case ntAssignment:
+	case c03NtAssignment:
 		if down || r.Chance(1, 2) {
-			return g.gen(ntConditional, depth, in)
+			return g.gen(c03NtConditional, depth, in)
 		}
-		return g.bin(g.pick(assignOps), g.gen(ntLHS, depth-1, in), g.gen(ntAssignment, depth-1, in))
-	case ntConditional:
+		return g.bin(g.pick(c03AssignOps), g.gen(c03NtLHS, depth-1, in), g.gen(c03NtAssignment, depth-1, in))
+	case c03NtConditional:
 		if down || r.Chance(1, 2) {
-			return g.gen(ntShortCircuit, depth, in)
+			return g.gen(c03NtShortCircuit, depth, in)
 		}
-		return &gx{kind: gxCond, kids: []*gx{g.gen(ntShortCircuit, depth-1, in), g.gen(ntAssignment, depth-1, true), g.gen(ntAssignment, depth-1, in)}}
-	case ntShortCircuit:
+		return &c03Gx{kind: c03GxCond, kids: []*c03Gx{g.gen(c03NtShortCircuit, depth-1, in), g.gen(c03NtAssignment, depth-1, true), g.gen(c03NtAssignment, depth-1, in)}}
+	case c03NtShortCircuit:
 		if !down && r.Chance(1, 3) {
-			return g.gen(ntCoalesce, depth, in)
+			return g.gen(c03NtCoalesce, depth, in)
 		}
-		return g.gen(ntLogicalOR, depth, in)
-	case ntCoalesce:
-		var head *gx
+		return g.gen(c03NtLogicalOR, depth, in)
+	case c03NtCoalesce:
+		var head *c03Gx
 		if depth > 0 && r.Chance(1, 3) {
-			head = g.gen(ntCoalesce, depth-1, in)
+			head = g.gen(c03NtCoalesce, depth-1, in)
 		} else {
-			head = g.gen(ntBitOR, depth-1, in)
+			head = g.gen(c03NtBitOR, depth-1, in)
 		}
-		return g.bin(js.NullishToken, head, g.gen(ntBitOR, depth-1, in))
-	case ntLogicalOR:
-		return g.leftAssoc(nt, ntLogicalAND, []js.TokenType{js.OrToken}, depth, in, down)
-	case ntLogicalAND:
-		return g.leftAssoc(nt, ntBitOR, []js.TokenType{js.AndToken}, depth, in, down)
-	case ntBitOR:
-		return g.leftAssoc(nt, ntBitXOR, []js.TokenType{js.BitOrToken}, depth, in, down)
-	case ntBitXOR:
-		return g.leftAssoc(nt, ntBitAND, []js.TokenType{js.BitXorToken}, depth, in, down)
-	case ntBitAND:
-		return g.leftAssoc(nt, ntEquality, []js.TokenType{js.BitAndToken}, depth, in, down)
-	case ntEquality:
-		return g.leftAssoc(nt, ntRelational, eqOps, depth, in, down)
-	case ntRelational:
-		ops := relOps
+		return g.bin(js.NullishToken, head, g.gen(c03NtBitOR, depth-1, in))
+	case c03NtLogicalOR:
+		return g.leftAssoc(nt, c03NtLogicalAND, []js.TokenType{js.OrToken}, depth, in, down)
+	case c03NtLogicalAND:
+		return g.leftAssoc(nt, c03NtBitOR, []js.TokenType{js.AndToken}, depth, in, down)
+	case c03NtBitOR:
+		return g.leftAssoc(nt, c03NtBitXOR, []js.TokenType{js.BitOrToken}, depth, in, down)
+	case c03NtBitXOR:
+		return g.leftAssoc(nt, c03NtBitAND, []js.TokenType{js.BitXorToken}, depth, in, down)
+	case c03NtBitAND:
+		return g.leftAssoc(nt, c03NtEquality, []js.TokenType{js.BitAndToken}, depth, in, down)
+	case c03NtEquality:
+		return g.leftAssoc(nt, c03NtRelational, c03EqOps, depth, in, down)
+	case c03NtRelational:
+		ops := c03RelOps
 		if !in {
-			ops = relOps[:5]
+			ops = c03RelOps[:5]
 		}
-		return g.leftAssoc(nt, ntShift, ops, depth, in, down)
-	case ntShift:
-		return g.leftAssoc(nt, ntAdditive, shiftOps, depth, in, down)
-	case ntAdditive:
-		return g.leftAssoc(nt, ntMultiplicative, addOps, depth, in, down)
-	case ntMultiplicative:
-		return g.leftAssoc(nt, ntExponent, mulOps, depth, in, down)
-	case ntExponent:
+		return g.leftAssoc(nt, c03NtShift, ops, depth, in, down)
+	case c03NtShift:
+		return g.leftAssoc(nt, c03NtAdditive, c03ShiftOps, depth, in, down)
+	case c03NtAdditive:
+		return g.leftAssoc(nt, c03NtMultiplicative, c03AddOps, depth, in, down)
+	case c03NtMultiplicative:
+		return g.leftAssoc(nt, c03NtExponent, c03MulOps, depth, in, down)
+	case c03NtExponent:
 		if down || r.Chance(1, 2) {
-			return g.gen(ntUnary, depth, in)
+			return g.gen(c03NtUnary, depth, in)
 		}
-		return g.bin(js.ExpToken, g.gen(ntUpdate, depth-1, in), g.gen(ntExponent, depth-1, in))
-	case ntUnary:
+		return g.bin(js.ExpToken, g.gen(c03NtUpdate, depth-1, in), g.gen(c03NtExponent, depth-1, in))
+	case c03NtUnary:
 		if down || r.Chance(1, 2) {
-			return g.gen(ntUpdate, depth, in)
+			return g.gen(c03NtUpdate, depth, in)
 		}
-		return &gx{kind: gxPrefix, op: g.pick(unaryOps), kids: []*gx{g.gen(ntUnary, depth-1, in)}}
-	case ntUpdate:
+		return &c03Gx{kind: c03GxPrefix, op: g.pick(c03UnaryOps), kids: []*c03Gx{g.gen(c03NtUnary, depth-1, in)}}
+	case c03NtUpdate:
 		if down || r.Chance(1, 2) {
-			return g.gen(ntLHS, depth, in)
+			return g.gen(c03NtLHS, depth, in)
 		}
 		if r.Bool() {
-			return &gx{kind: gxPostfix, op: g.pick([]js.TokenType{js.IncrToken, js.DecrToken}), kids: []*gx{g.gen(ntLHS, depth-1, in)}}
+			return &c03Gx{kind: c03GxPostfix, op: g.pick([]js.TokenType{js.IncrToken, js.DecrToken}), kids: []*c03Gx{g.gen(c03NtLHS, depth-1, in)}}
 		}
-		return &gx{kind: gxPrefix, op: g.pick([]js.TokenType{js.IncrToken, js.DecrToken}), kids: []*gx{g.gen(ntUnary, depth-1, in)}}
-	case ntLHS:
-		e := g.gen(ntPrimary, depth, in)
+		return &c03Gx{kind: c03GxPrefix, op: g.pick([]js.TokenType{js.IncrToken, js.DecrToken}), kids: []*c03Gx{g.gen(c03NtUnary, depth-1, in)}}
+	case c03NtLHS:
+		e := g.gen(c03NtPrimary, depth, in)
 		for depth > 0 && r.Chance(1, 3) {
 			depth--
 			switch r.Intn(3) {
 			case 0:
 				names := []string{"p", "q", "typeof", "in", "delete", "null", "x1"}
-				e = &gx{kind: gxDot, kids: []*gx{e}, tok: jtok{data: []byte(names[r.Intn(len(names))])}}
+				e = &c03Gx{kind: c03GxDot, kids: []*c03Gx{e}, tok: c03Jtok{data: []byte(names[r.Intn(len(names))])}}
 			case 1:
-				e = &gx{kind: gxIndex, kids: []*gx{e, g.gen(ntExpression, depth, true)}}
+				e = &c03Gx{kind: c03GxIndex, kids: []*c03Gx{e, g.gen(c03NtExpression, depth, true)}}
 			default:
-				c := &gx{kind: gxCall, kids: []*gx{e}}
+				c := &c03Gx{kind: c03GxCall, kids: []*c03Gx{e}}
 				for n := r.Intn(3); n > 0; n-- {
-					c.kids = append(c.kids, g.gen(ntAssignment, depth, true))
+					c.kids = append(c.kids, g.gen(c03NtAssignment, depth, true))
 				}
 				e = c
 			}
 		}
 		return e
-	default: // ntPrimary
+	default: // c03NtPrimary
 		if depth > 0 && r.Chance(1, 3) {
-			return &gx{kind: gxGroup, kids: []*gx{g.gen(ntExpression, depth-1, true)}}
+			return &c03Gx{kind: c03GxGroup, kids: []*c03Gx{g.gen(c03NtExpression, depth-1, true)}}
 		}
 		if g.raws != nil && depth > 0 && r.Chance(1, 4) {
 			if e := g.raws(g, depth-1); e != nil {
@@ -254,13 +254,13 @@ func (g *exprGen) gen(nt, depth int, in bool) *gx {
 			}
 		}
 		if r.Chance(2, 3) {
-			return leaf(genIdents[r.Intn(len(genIdents))])
+			return c03Leaf(c03GenIdents[r.Intn(len(c03GenIdents))])
 		}
-		return leaf(genLits[r.Intn(len(genLits))])
+		return c03Leaf(c03GenLits[r.Intn(len(c03GenLits))])
 	}
 }
 
-func (g *exprGen) leftAssoc(nt, next int, ops []js.TokenType, depth int, in, down bool) *gx {
+func (g *c03ExprGen) leftAssoc(nt, next int, ops []js.TokenType, depth int, in, down bool) *c03Gx {
 	if down || g.r.Chance(1, 2) {
 		return g.gen(next, depth, in)
 	}
@@ -268,70 +268,70 @@ func (g *exprGen) leftAssoc(nt, next int, ops []js.TokenType, depth int, in, dow
 }
 
 // toks is the token list of the tree; nolt marks tokens that must stay on the line of their predecessor
-func (g *exprGen) toks(e *gx) []jtok {
+func (g *c03ExprGen) toks(e *c03Gx) []c03Jtok {
 	switch e.kind {
-	case gxLeaf:
-		return []jtok{e.tok}
-	case gxGroup:
-		return cat(tkLP, g.toks(e.kids[0]), tkRP)
-	case gxPrefix:
-		return cat(e.op, g.toks(e.kids[0]))
-	case gxPostfix:
-		return cat(g.toks(e.kids[0]), e.op)
-	case gxBinary:
-		return cat(g.toks(e.kids[0]), e.op, g.toks(e.kids[1]))
-	case gxCond:
-		return cat(g.toks(e.kids[0]), tkQ, g.toks(e.kids[1]), tkColon, g.toks(e.kids[2]))
-	case gxDot:
+	case c03GxLeaf:
+		return []c03Jtok{e.tok}
+	case c03GxGroup:
+		return c03Cat(c03TkLP, g.toks(e.kids[0]), c03TkRP)
+	case c03GxPrefix:
+		return c03Cat(e.op, g.toks(e.kids[0]))
+	case c03GxPostfix:
+		return c03Cat(g.toks(e.kids[0]), e.op)
+	case c03GxBinary:
+		return c03Cat(g.toks(e.kids[0]), e.op, g.toks(e.kids[1]))
+	case c03GxCond:
+		return c03Cat(g.toks(e.kids[0]), c03TkQ, g.toks(e.kids[1]), c03TkColon, g.toks(e.kids[2]))
+	case c03GxDot:
 		nm := e.tok
 		l := js.NewLexer(parse.NewInputBytes(nm.data))
 		nm.ty, _ = l.Next()
-		return cat(g.toks(e.kids[0]), tkDot, nm)
-	case gxIndex:
-		return cat(g.toks(e.kids[0]), tkLB, g.toks(e.kids[1]), tkRB)
-	case gxCall:
-		out := cat(g.toks(e.kids[0]), tkLP)
+		return c03Cat(g.toks(e.kids[0]), c03TkDot, nm)
+	case c03GxIndex:
+		return c03Cat(g.toks(e.kids[0]), c03TkLB, g.toks(e.kids[1]), c03TkRB)
+	case c03GxCall:
+		out := c03Cat(g.toks(e.kids[0]), c03TkLP)
 		for i, a := range e.kids[1:] {
 			if i > 0 {
-				out = append(out, tkComma)
+				out = append(out, c03TkComma)
 			}
 			out = append(out, g.toks(a)...)
 		}
 		if g.trailing && len(e.kids) > 1 && g.r.Chance(1, 6) {
-			out = append(out, tkComma)
+			out = append(out, c03TkComma)
 		}
-		return append(out, tkRP)
-	case gxComma:
-		var out []jtok
+		return append(out, c03TkRP)
+	case c03GxComma:
+		var out []c03Jtok
 		for i, a := range e.kids {
 			if i > 0 {
-				out = append(out, tkComma)
+				out = append(out, c03TkComma)
 			}
 			out = append(out, g.toks(a)...)
 		}
 		return out
-	case gxRaw:
-		return append([]jtok{}, e.raw...)
+	case c03GxRaw:
+		return append([]c03Jtok{}, e.raw...)
 	}
 	return nil
 }
 
-// exprStmtString is ExprStmt.String() restated
-func exprStmtString(v string) string {
+// c03ExprStmtString is ExprStmt.String() restated
+func c03ExprStmtString(v string) string {
 	if len(v) > 0 && v[0] == '(' && v[len(v)-1] == ')' {
 		return "Stmt" + v
 	}
 	return "Stmt(" + v + ")"
 }
 
-// hasPrefixUpdateExpBase: `++a ** b` / `--a ** b` (UpdateExpression ** ...), a grammatical form that the
+// c03HasPrefixUpdateExpBase: `++a ** b` / `--a ** b` (UpdateExpression ** ...), a grammatical form that the
 // parser is known to reject (KNOWN_FINDINGS).
-func hasPrefixUpdateExpBase(e *gx) bool {
-	if e.kind == gxBinary && e.op == js.ExpToken && e.kids[0].kind == gxPrefix && (e.kids[0].op == js.IncrToken || e.kids[0].op == js.DecrToken) {
+func c03HasPrefixUpdateExpBase(e *c03Gx) bool {
+	if e.kind == c03GxBinary && e.op == js.ExpToken && e.kids[0].kind == c03GxPrefix && (e.kids[0].op == js.IncrToken || e.kids[0].op == js.DecrToken) {
 		return true
 	}
 	for _, k := range e.kids {
-		if hasPrefixUpdateExpBase(k) {
+		if c03HasPrefixUpdateExpBase(k) {
 			return true
 		}
 	}
@@ -340,13 +340,13 @@ func hasPrefixUpdateExpBase(e *gx) bool {
 
 // ---------------------------------------------------------------------------------------- spelling
 
-// spellVaried writes tokens with varied white space, comments and line breaks.  A line break is never put
+// c03SpellVaried writes tokens with varied white space, comments and line breaks.  A line break is never put
 // before a token marked nolt (restricted productions), and never before a postfix ++/-- (the caller marks
 // those).  If the text does not lex back to the same tokens, the plain one-space spelling is used.
-func spellVaried(r *Rng, ts []jtok, nolt []bool) []byte {
+func c03SpellVaried(r *Rng, ts []c03Jtok, nolt []bool) []byte {
 	seps := []string{"", " ", " ", "\t", "  ", "/*c*/", " /* c\n d */ ", "\n", " // c\n", "\r\n"}
 	var b bytes.Buffer
-	want := make([]jtok, len(ts))
+	want := make([]c03Jtok, len(ts))
 	for i, t := range ts {
 		s := seps[r.Intn(len(seps))]
 		hasNL := strings.ContainsAny(s, "\n\r")
@@ -359,12 +359,12 @@ func spellVaried(r *Rng, ts []jtok, nolt []bool) []byte {
 		}
 		b.WriteString(s)
 		b.Write(t.data)
-		want[i] = jtok{t.ty, hasNL, t.data}
+		want[i] = c03Jtok{t.ty, hasNL, t.data}
 	}
 	if r.Chance(1, 4) {
 		b.WriteString(seps[r.Intn(len(seps))])
 	}
-	got, ok := relex(b.Bytes())
+	got, ok := c03Relex(b.Bytes())
 	if ok && len(got) == len(want) {
 		same := true
 		for i := range got {
@@ -377,14 +377,14 @@ func spellVaried(r *Rng, ts []jtok, nolt []bool) []byte {
 			return b.Bytes()
 		}
 	}
-	plain := make([]jtok, len(ts))
+	plain := make([]c03Jtok, len(ts))
 	for i, t := range ts {
-		plain[i] = jtok{t.ty, false, t.data}
+		plain[i] = c03Jtok{t.ty, false, t.data}
 	}
-	return spellToks(plain)
+	return c03SpellToks(plain)
 }
 
-func noltOf(ts []jtok, e []bool) []bool {
+func c03NoltOf(ts []c03Jtok, e []bool) []bool {
 	out := make([]bool, len(ts))
 	copy(out, e)
 	return out
@@ -392,12 +392,12 @@ func noltOf(ts []jtok, e []bool) []bool {
 
 // ---------------------------------------------------------------------------------------- oracle
 
-func parseJS(src []byte, o int) (ast *js.AST, err error, pan interface{}) {
-	pan = catch(func() { ast, err = js.Parse(parse.NewInputBytes(src), jsOpts(o)) })
+func c03ParseJS(src []byte, o int) (ast *js.AST, err error, pan interface{}) {
+	pan = catch(func() { ast, err = js.Parse(parse.NewInputBytes(src), c03JsOpts(o)) })
 	return
 }
 
-func dropEmptyStmts(ast *js.AST) string {
+func c03DropEmptyStmts(ast *js.AST) string {
 	var parts []string
 	for _, s := range ast.List {
 		if _, ok := s.(*js.EmptyStmt); !ok {
@@ -407,7 +407,7 @@ func dropEmptyStmts(ast *js.AST) string {
 	return strings.Join(parts, " ")
 }
 
-func astString(ast *js.AST) string {
+func c03AstString(ast *js.AST) string {
 	var parts []string
 	for _, s := range ast.List {
 		parts = append(parts, s.String())
@@ -422,72 +422,71 @@ func c03Oracle(r *Rng, tier string, rep *Report) {
 	c03Forbidden(r, tier, rep)
 }
 
-// postfixNoLT marks the postfix ++/-- tokens of a token list produced by exprGen.toks: a line break before
+// postfixNoLT marks the postfix ++/-- tokens of a token list produced by c03ExprGen.toks: a line break before
 // them would change the meaning (restricted production), so the speller must not put one there.
-func markPostfix(e *gx, g *exprGen, pos int, nolt []bool) int {
+func c03MarkPostfix(e *c03Gx, g *c03ExprGen, pos int, nolt []bool) int {
 	switch e.kind {
-	case gxLeaf:
+	case c03GxLeaf:
 		return pos + 1
-	case gxRaw:
+	case c03GxRaw:
 		return pos + len(e.raw)
-	case gxPostfix:
-		p := markPostfix(e.kids[0], g, pos, nolt)
+	case c03GxPostfix:
+		p := c03MarkPostfix(e.kids[0], g, pos, nolt)
 		nolt[p] = true
 		return p + 1
-	case gxGroup:
-		return markPostfix(e.kids[0], g, pos+1, nolt) + 1
-	case gxPrefix:
-		return markPostfix(e.kids[0], g, pos+1, nolt)
-	case gxBinary:
-		p := markPostfix(e.kids[0], g, pos, nolt)
-		return markPostfix(e.kids[1], g, p+1, nolt)
-	case gxCond:
-		p := markPostfix(e.kids[0], g, pos, nolt)
-		p = markPostfix(e.kids[1], g, p+1, nolt)
-		return markPostfix(e.kids[2], g, p+1, nolt)
-	case gxDot:
-		return markPostfix(e.kids[0], g, pos, nolt) + 2
-	case gxIndex:
-		p := markPostfix(e.kids[0], g, pos, nolt)
-		return markPostfix(e.kids[1], g, p+1, nolt) + 1
-	case gxCall:
-		p := markPostfix(e.kids[0], g, pos, nolt) + 1
+	case c03GxGroup:
+		return c03MarkPostfix(e.kids[0], g, pos+1, nolt) + 1
+	case c03GxPrefix:
+		return c03MarkPostfix(e.kids[0], g, pos+1, nolt)
+	case c03GxBinary:
+		p := c03MarkPostfix(e.kids[0], g, pos, nolt)
+		return c03MarkPostfix(e.kids[1], g, p+1, nolt)
+	case c03GxCond:
+		p := c03MarkPostfix(e.kids[0], g, pos, nolt)
+		p = c03MarkPostfix(e.kids[1], g, p+1, nolt)
+		return c03MarkPostfix(e.kids[2], g, p+1, nolt)
+	case c03GxDot:
+		return c03MarkPostfix(e.kids[0], g, pos, nolt) + 2
+	case c03GxIndex:
+		p := c03MarkPostfix(e.kids[0], g, pos, nolt)
+		return c03MarkPostfix(e.kids[1], g, p+1, nolt) + 1
+	case c03GxCall:
+		p := c03MarkPostfix(e.kids[0], g, pos, nolt) + 1
 		for i, a := range e.kids[1:] {
 			if i > 0 {
 				p++
 			}
-			p = markPostfix(a, g, p, nolt)
+			p = c03MarkPostfix(a, g, p, nolt)
 		}
 		return p + 1
-	case gxComma:
+	case c03GxComma:
 		p := pos
 		for i, a := range e.kids {
 			if i > 0 {
 				p++
 			}
-			p = markPostfix(a, g, p, nolt)
+			p = c03MarkPostfix(a, g, p, nolt)
 		}
 		return p
 	}
 	return pos
 }
 
-
-// acceptCheck: src is a grammatical program whose tree must have the String() form want.
-func acceptCheck(rep *Report, src []byte, o int, want string, prefixUpdExp bool, bucket string, nontrivial bool) {
-	ast, err, pan := parseJS(src, o)
+// c03AcceptCheck: src is a grammatical program whose tree must have the String() form want.
+func c03AcceptCheck(rep *Report, src []byte, o int, want string, prefixUpdExp bool, bucket string, nontrivial bool) {
+	ast, err, pan := c03ParseJS(src, o)
 	switch {
 	case pan != nil:
 		rep.Violate("c03-panic:"+string(src), fmt.Sprintf("js.Parse panics on %q: %v", src, pan), map[string]interface{}{"src": string(src), "opts": o})
 	case err != nil:
 		if prefixUpdExp {
-			rep.Violate("c03-accept:prefix-update-exp-base", fmt.Sprintf("grammatical program rejected: %q (UpdateExpression `++x`/`--x` as the base of **): %v", src, firstLine(err)), map[string]interface{}{"src": string(src), "opts": o, "expected": want})
+			rep.Violate("c03-accept:prefix-update-exp-base", fmt.Sprintf("grammatical program rejected: %q (UpdateExpression `++x`/`--x` as the base of **): %v", src, c03FirstLine(err)), map[string]interface{}{"src": string(src), "opts": o, "expected": want})
 		} else {
-			rep.Violate("c03-accept:"+string(src), fmt.Sprintf("grammatical program rejected: %q: %v", src, firstLine(err)), map[string]interface{}{"src": string(src), "opts": o, "expected": want})
+			rep.Violate("c03-accept:"+string(src), fmt.Sprintf("grammatical program rejected: %q: %v", src, c03FirstLine(err)), map[string]interface{}{"src": string(src), "opts": o, "expected": want})
 		}
 	default:
-		if got := astString(ast); got != want {
-			if dropEmptyStmts(ast) == want {
+		if got := c03AstString(ast); got != want {
+			if c03DropEmptyStmts(ast) == want {
 				// `a <newline> ; b`: the grammar reads the ';' as the end of the first statement; the parser does
 				// not take a ';' that follows a line break and then parses it as an EmptyStatement
 				rep.Violate("c03-tree:empty-stmt-for-semicolon-after-newline", fmt.Sprintf("extra EmptyStmt for a ';' that follows a line break: %q: got %s want %s", src, got, want), map[string]interface{}{"src": string(src), "opts": o, "got": got, "expected": want})
@@ -503,19 +502,19 @@ func acceptCheck(rep *Report, src []byte, o int, want string, prefixUpdExp bool,
 // replay of a finding is the shortest program that shows it.
 func c03Fixed(rep *Report) {
 	for o := 0; o < 4; o++ {
-		acceptCheck(rep, []byte("++a**b"), o, "Stmt((++a)**b)", true, "fixed", true)
-		acceptCheck(rep, []byte("a\n;b"), o, "Stmt(a) Stmt(b)", false, "fixed", true)
-		acceptCheck(rep, []byte("a+b*c"), o, "Stmt(a+(b*c))", false, "fixed", true)
-		acceptCheck(rep, []byte("a<<b+c"), o, "Stmt(a<<(b+c))", false, "fixed", true)
-		acceptCheck(rep, []byte("(a??b)||c"), o, "Stmt(((a??b))||c)", false, "fixed", true)
-		acceptCheck(rep, []byte("(-a)**b"), o, "Stmt(((-a))**b)", false, "fixed", true)
+		c03AcceptCheck(rep, []byte("++a**b"), o, "Stmt((++a)**b)", true, "fixed", true)
+		c03AcceptCheck(rep, []byte("a\n;b"), o, "Stmt(a) Stmt(b)", false, "fixed", true)
+		c03AcceptCheck(rep, []byte("a+b*c"), o, "Stmt(a+(b*c))", false, "fixed", true)
+		c03AcceptCheck(rep, []byte("a<<b+c"), o, "Stmt(a<<(b+c))", false, "fixed", true)
+		c03AcceptCheck(rep, []byte("(a??b)||c"), o, "Stmt(((a??b))||c)", false, "fixed", true)
+		c03AcceptCheck(rep, []byte("(-a)**b"), o, "Stmt(((-a))**b)", false, "fixed", true)
 	}
 	for _, s := range []string{"(a,)", "-a**b", "a??b||c", "a||b??c", "a&&b??c", "a??b&&c", "a+b=c", "(a", "a)", "a[b", "a]", "f(a", "{a"} {
 		kind := "fixed"
 		if s == "(a,)" {
 			kind = "paren-trailing-comma"
 		}
-		rejectCheck(rep, kind, []byte(s))
+		c03RejectCheck(rep, kind, []byte(s))
 	}
 }
 
@@ -525,25 +524,25 @@ func c03Expressions(r *Rng, tier string, rep *Report) {
 	if tier == "thorough" {
 		n = 300000
 	}
-	g := &exprGen{r: r}
+	g := &c03ExprGen{r: r}
 	for i := 0; i < n; i++ {
-		e := g.gen(ntExpression, 1+r.Intn(5), true)
+		e := g.gen(c03NtExpression, 1+r.Intn(5), true)
 		ts := g.toks(e)
 		nolt := make([]bool, len(ts)+1)
-		markPostfix(e, g, 0, nolt)
+		c03MarkPostfix(e, g, 0, nolt)
 		// an expression statement cannot start with these (they would be another statement)
-		src := spellVaried(r, ts, nolt)
-		want := exprStmtString(e.str())
+		src := c03SpellVaried(r, ts, nolt)
+		want := c03ExprStmtString(e.str())
 		o := r.Intn(4)
 		bucket := "expr"
-		if hasPrefixUpdateExpBase(e) {
+		if c03HasPrefixUpdateExpBase(e) {
 			bucket = "expr-prefix-update-exp"
 		}
-		acceptCheck(rep, src, o, want, hasPrefixUpdateExpBase(e), bucket, len(ts) >= 3)
+		c03AcceptCheck(rep, src, o, want, c03HasPrefixUpdateExpBase(e), bucket, len(ts) >= 3)
 	}
 }
 
-func firstLine(err error) string {
+func c03FirstLine(err error) string {
 	s := err.Error()
 	if i := strings.IndexByte(s, '\n'); i >= 0 {
 		s = s[:i]
@@ -551,10 +550,10 @@ func firstLine(err error) string {
 	return s
 }
 
-// rejectCheck: src is ill-formed (kind says why) and must be rejected under every Options value.
-func rejectCheck(rep *Report, kind string, src []byte) {
+// c03RejectCheck: src is ill-formed (kind says why) and must be rejected under every Options value.
+func c03RejectCheck(rep *Report, kind string, src []byte) {
 	for o := 0; o < 4; o++ {
-		ast, err, pan := parseJS(src, o)
+		ast, err, pan := c03ParseJS(src, o)
 		if pan != nil {
 			rep.Violate("c03-panic:"+string(src), fmt.Sprintf("js.Parse panics on %q: %v", src, pan), map[string]interface{}{"src": string(src), "opts": o})
 		} else if err == nil {
@@ -562,7 +561,7 @@ func rejectCheck(rep *Report, kind string, src []byte) {
 			if kind == "paren-trailing-comma" {
 				key = "c03-reject:paren-trailing-comma" // one stable key: every instance is the same defect
 			}
-			rep.Violate(key, fmt.Sprintf("ill-formed program accepted (%s): %q parsed as %s", kind, src, astString(ast)), map[string]interface{}{"src": string(src), "opts": o})
+			rep.Violate(key, fmt.Sprintf("ill-formed program accepted (%s): %q parsed as %s", kind, src, c03AstString(ast)), map[string]interface{}{"src": string(src), "opts": o})
 		}
 		rep.Eval(fmt.Sprintf("reject:%s:%q/%d", kind, src, o), true, "reject-"+kind)
 	}
@@ -570,47 +569,47 @@ func rejectCheck(rep *Report, kind string, src []byte) {
 
 // c03Forbidden: the operator sequences the grammar forbids, single-bracket mutations, double declarations.
 func c03Forbidden(r *Rng, tier string, rep *Report) {
-	reject := func(kind string, src []byte) { rejectCheck(rep, kind, src) }
-	g := &exprGen{r: r}
+	reject := func(kind string, src []byte) { c03RejectCheck(rep, kind, src) }
+	g := &c03ExprGen{r: r}
 	n := 300
 	if tier == "thorough" {
 		n = 20000
 	}
-	operand := func(nt int) []jtok { return g.toks(g.gen(nt, r.Intn(3), true)) }
+	operand := func(nt int) []c03Jtok { return g.toks(g.gen(nt, r.Intn(3), true)) }
 	for i := 0; i < n; i++ {
 		// unary operator applied to the base of ** without parentheses
-		u := unaryOps[r.Intn(len(unaryOps))]
-		reject("unary-exp", spellVaried(r, cat(u, operand(ntUpdate), js.ExpToken, operand(ntExponent)), nil))
+		u := c03UnaryOps[r.Intn(len(c03UnaryOps))]
+		reject("unary-exp", c03SpellVaried(r, c03Cat(u, operand(c03NtUpdate), js.ExpToken, operand(c03NtExponent)), nil))
 		// ?? mixed with || or && without parentheses
 		lo := []js.TokenType{js.OrToken, js.AndToken}[r.Intn(2)]
-		reject("mixed-coalesce", spellVaried(r, cat(operand(ntBitOR), js.NullishToken, operand(ntBitOR), lo, operand(ntBitOR)), nil))
-		reject("mixed-coalesce", spellVaried(r, cat(operand(ntBitOR), lo, operand(ntBitOR), js.NullishToken, operand(ntBitOR)), nil))
+		reject("mixed-coalesce", c03SpellVaried(r, c03Cat(operand(c03NtBitOR), js.NullishToken, operand(c03NtBitOR), lo, operand(c03NtBitOR)), nil))
+		reject("mixed-coalesce", c03SpellVaried(r, c03Cat(operand(c03NtBitOR), lo, operand(c03NtBitOR), js.NullishToken, operand(c03NtBitOR)), nil))
 		// assignment to a binary / unary / conditional expression
-		bo := binaryOps[r.Intn(len(binaryOps))]
-		ao := assignOps[r.Intn(len(assignOps))]
-		reject("assign-to-binary", spellVaried(r, cat(operand(ntUnary), bo, operand(ntUnary), ao, operand(ntAssignment)), nil))
-		reject("assign-to-unary", spellVaried(r, cat(u, operand(ntUnary), ao, operand(ntAssignment)), nil))
+		bo := c03BinaryOps[r.Intn(len(c03BinaryOps))]
+		ao := c03AssignOps[r.Intn(len(c03AssignOps))]
+		reject("assign-to-binary", c03SpellVaried(r, c03Cat(operand(c03NtUnary), bo, operand(c03NtUnary), ao, operand(c03NtAssignment)), nil))
+		reject("assign-to-unary", c03SpellVaried(r, c03Cat(u, operand(c03NtUnary), ao, operand(c03NtAssignment)), nil))
 	}
 	// `( Expression , )` is not a ParenthesizedExpression (a trailing comma is only allowed in arrow parameters)
 	for i := 0; i < 20; i++ {
-		inner := cat(tkLP, operand(ntAssignment), tkComma, tkRP)
+		inner := c03Cat(c03TkLP, operand(c03NtAssignment), c03TkComma, c03TkRP)
 		switch i % 3 {
 		case 0:
-			reject("paren-trailing-comma", spellVaried(r, inner, nil))
+			reject("paren-trailing-comma", c03SpellVaried(r, inner, nil))
 		case 1:
-			reject("paren-trailing-comma", spellVaried(r, cat(tkA, js.EqToken, inner), nil))
+			reject("paren-trailing-comma", c03SpellVaried(r, c03Cat(c03TkA, js.EqToken, inner), nil))
 		default:
-			reject("paren-trailing-comma", spellVaried(r, cat(inner, js.AddToken, tkB), nil))
+			reject("paren-trailing-comma", c03SpellVaried(r, c03Cat(inner, js.AddToken, c03TkB), nil))
 		}
 	}
 	// all operators: a+b=c for every binary and every assignment operator
-	for _, bo := range binaryOps {
-		for _, ao := range assignOps {
-			reject("assign-to-binary", spellToks(cat(tkA, bo, tkB, ao, tkC)))
+	for _, bo := range c03BinaryOps {
+		for _, ao := range c03AssignOps {
+			reject("assign-to-binary", c03SpellToks(c03Cat(c03TkA, bo, c03TkB, ao, c03TkC)))
 		}
 	}
-	for _, u := range unaryOps {
-		reject("unary-exp", spellToks(cat(u, tkA, js.ExpToken, tkB)))
+	for _, u := range c03UnaryOps {
+		reject("unary-exp", c03SpellToks(c03Cat(u, c03TkA, js.ExpToken, c03TkB)))
 	}
 	// single-bracket mutations of generated expressions (no '/' so that no regular expression can swallow a bracket)
 	m := 1500
@@ -618,7 +617,7 @@ func c03Forbidden(r *Rng, tier string, rep *Report) {
 		m = 100000
 	}
 	for i := 0; i < m; i++ {
-		e := g.gen(ntExpression, 2+r.Intn(4), true)
+		e := g.gen(c03NtExpression, 2+r.Intn(4), true)
 		ts := g.toks(e)
 		hasDiv := false
 		var br []int
@@ -635,13 +634,13 @@ func c03Forbidden(r *Rng, tier string, rep *Report) {
 		}
 		if len(br) > 0 && r.Bool() {
 			j := br[r.Intn(len(br))]
-			mt := append(append([]jtok{}, ts[:j]...), ts[j+1:]...)
-			reject("bracket-deleted", spellToks(mt))
+			mt := append(append([]c03Jtok{}, ts[:j]...), ts[j+1:]...)
+			reject("bracket-deleted", c03SpellToks(mt))
 		} else {
 			j := r.Intn(len(ts) + 1)
-			b := []jtok{tkLP, tkRP, tkLB, tkRB, opTok(js.OpenBraceToken), opTok(js.CloseBraceToken)}[r.Intn(6)]
-			mt := append(append(append([]jtok{}, ts[:j]...), b), ts[j:]...)
-			reject("bracket-added", spellToks(mt))
+			b := []c03Jtok{c03TkLP, c03TkRP, c03TkLB, c03TkRB, c03OpTok(js.OpenBraceToken), c03OpTok(js.CloseBraceToken)}[r.Intn(6)]
+			mt := append(append(append([]c03Jtok{}, ts[:j]...), b), ts[j:]...)
+			reject("bracket-added", c03SpellToks(mt))
 		}
 	}
 }
@@ -652,16 +651,16 @@ func c03Programs(r *Rng, tier string, rep *Report) {
 	if tier == "thorough" {
 		n = 100000
 	}
-	g := &exprGen{r: r}
+	g := &c03ExprGen{r: r}
 	for i := 0; i < n; i++ {
 		k := 2 + r.Intn(3)
-		var ts []jtok
+		var ts []c03Jtok
 		var nolt []bool
 		var want []string
 		pue := false
 		for s := 0; s < k; s++ {
-			e := g.gen(ntExpression, 1+r.Intn(3), true)
-			pue = pue || hasPrefixUpdateExpBase(e)
+			e := g.gen(c03NtExpression, 1+r.Intn(3), true)
+			pue = pue || c03HasPrefixUpdateExpBase(e)
 			st := g.toks(e)
 			// the next statement must not continue the previous expression: keep to starts that cannot
 			first := st[0].ty
@@ -673,10 +672,10 @@ func c03Programs(r *Rng, tier string, rep *Report) {
 				}
 			}
 			snl := make([]bool, len(st)+1)
-			markPostfix(e, g, 0, snl)
+			c03MarkPostfix(e, g, 0, snl)
 			if s > 0 {
 				if semi {
-					ts = append(ts, tkSemi)
+					ts = append(ts, c03TkSemi)
 					nolt = append(nolt, false)
 				} else {
 					st[0].lt = true // forced line break: automatic semicolon insertion
@@ -684,25 +683,25 @@ func c03Programs(r *Rng, tier string, rep *Report) {
 			}
 			ts = append(ts, st...)
 			nolt = append(nolt, snl[:len(st)]...)
-			want = append(want, exprStmtString(e.str()))
+			want = append(want, c03ExprStmtString(e.str()))
 		}
 		// spell: forced line breaks are kept, others varied
 		var b bytes.Buffer
 		start := 0
 		for j := 1; j <= len(ts); j++ {
 			if j == len(ts) || ts[j].lt {
-				seg := make([]jtok, j-start)
+				seg := make([]c03Jtok, j-start)
 				copy(seg, ts[start:j])
 				seg[0].lt = false
 				if start > 0 {
 					b.WriteString([]string{"\n", " \n ", "\r\n", " // x\n", "/* a\n b */"}[r.Intn(5)])
 				}
-				b.Write(spellVaried(r, seg, nolt[start:j]))
+				b.Write(c03SpellVaried(r, seg, nolt[start:j]))
 				start = j
 			}
 		}
 		src := b.Bytes()
 		o := r.Intn(4)
-		acceptCheck(rep, src, o, strings.Join(want, " "), pue, "expr-stmts", true)
+		c03AcceptCheck(rep, src, o, strings.Join(want, " "), pue, "expr-stmts", true)
 	}
 }
